@@ -27,12 +27,13 @@ func (e *pvErr) Error() string { return "pv:" + strconv.Itoa(e.v) }
 // Run is one lane under observation: the recorder of its history and the handles of everything
 // the scenario started.
 type Run struct {
-	Name    string
-	N, Q    int
-	G       *Gate
-	L       *tasklane.TaskLane
-	timeout time.Duration
-	Record  bool // false: no events (pure race hunting, no synchronisation added by the recorder)
+	Name      string
+	N, Q      int
+	G         *Gate
+	L         *tasklane.TaskLane
+	timeout   time.Duration
+	rawStarts atomic.Int64 // Start() calls of an unrecorded run
+	Record    bool         // false: no events (pure race hunting, no synchronisation added by the recorder)
 
 	mu      sync.Mutex
 	evs     []string
@@ -125,13 +126,25 @@ func (r *Run) NewTask(gated bool, sleep time.Duration, panics bool) *Task {
 
 // Panic value kinds (dynamic types).
 const (
-	PVString  = 0
-	PVError   = 1
-	PVInt     = 2
-	PVStruct_ = 3
-	PVSlice   = 4
-	PVNilPtr  = 5
+	PVString      = 0
+	PVError       = 1
+	PVInt         = 2
+	PVStruct_     = 3
+	PVSlice       = 4
+	PVNilPtr      = 5
+	PVMap         = 6
+	PVStructSlice = 7
 )
+
+// PVWithSlice is a panic value of a struct type that is not comparable.
+type PVWithSlice struct{ V []int }
+
+// NewSamePanicTask: a task that panics with the SAME value (same id, identical interface value) as prev.
+func (r *Run) NewSamePanicTask(prev *Task) *Task {
+	t := r.NewTask(false, 0, false)
+	t.pv, t.pval = prev.pv, prev.pval
+	return t
+}
 
 // NewPanicTask: a task whose Start() panics with a value of the given dynamic type.
 func (r *Run) NewPanicTask(kind int, gated bool) *Task {
@@ -156,6 +169,10 @@ func (r *Run) mkPV(v, kind int) any {
 		return PVStruct{v}
 	case 4:
 		return []int{v}
+	case PVMap:
+		return map[string]int{"pv": v}
+	case PVStructSlice:
+		return PVWithSlice{V: []int{v}}
 	default:
 		if r.nilPV < 0 {
 			r.nilPV = v
@@ -187,6 +204,14 @@ func (r *Run) pvID(x any) int {
 	case []int:
 		if len(v) == 1 {
 			return v[0]
+		}
+	case map[string]int:
+		if len(v) == 1 {
+			return v["pv"]
+		}
+	case PVWithSlice:
+		if len(v.V) == 1 {
+			return v.V[0]
 		}
 	case *PVStruct:
 		if v == nil {
@@ -223,6 +248,9 @@ func (t *Task) startWith(body func()) {
 			r.sAfterW++
 		}
 		r.mu.Unlock()
+	}
+	if !r.Record {
+		r.rawStarts.Add(1)
 	}
 	if t.gate != nil {
 		<-t.gate
